@@ -45,8 +45,8 @@ CHECKS = {
  "C11": dict(level="proof", tech="Lean 4: fault steps are ops of inv_run + fault-injecting correspondence",
    text="Proof: trace faults (k-th trace call, after j slots, object or root) and callback panics are ordinary ops, so inv_run quantifies over every fault position in every schedule incl. repeated faults; mark_one_fault, root_fault_keeps_flag. Failed constructors / builders are C04 / C18. Tie: T1/od with a shared fault plan; C01–C05 monitors on the continued history.",
    ref="DESIGN §6 C11"),
- "C12": dict(level="proof", tech="Lean 4 table theorems over a BrandTable regenerated from source + rustc probe corpus",
-   text="Partial (rustc trusted): general lemmas (variance_inv_of_field, invariant_marker, not_send/not_sync_of_field, binder_closed) proved for all tables; table theorems re-checked by `decide` against the table the translator regenerates from /repo on every run; 648 (quick) adversarial compile probes cross-validate predictions. The corpus is a sample of programs; soundness of rustc's region/trait checking is trusted.",
+ "C12": dict(level="proof", tech="Lean 4 table theorems over a BrandTable and a BrandFlow table regenerated from source + brand calculus + rustc probe corpus",
+   text="Partial (rustc trusted): general lemmas (variance_inv_of_field, invariant_marker, not_send/not_sync_of_field, binder_closed, builders_invariant_in_value_type) proved for all tables; brand-flow calculus: `brand_flow_closed` (in every program over an OK table every held brand was introduced by a still-active callback and every result brand of a call is the brand of one of its inputs), `caller_cannot_choose`, `brand_dead_after_exit`; `table_ok` / variance / auto-trait table theorems re-checked by `decide` against the tables the translators regenerate from /repo on every run (82 signatures incl. the unsafe trait methods exported safe macros call); 648 + 134 adversarial compile probes cross-validate predictions (an accepted attack probe is run and is the failing input). The corpus is a sample of programs; soundness of rustc's region/trait checking, and the translator's brand-vs-borrow classification, are trusted.",
    ref="DESIGN §6 C12", engine="brand"),
  "C20": dict(level="proof", tech="Lean 4 (frame/projection, trivial in the model) + multi-arena correspondence",
    text="Proof (trivial in the model, stated as such): frame, projection, inv_per_arena. The assurance about the code comes from the ties: multi-arena correspondence runs (2–3 arenas, interleaved incl. nested callbacks and dropping one mid-cycle; events attributed per arena; any foreign event is a C20 violation).",
